@@ -244,6 +244,89 @@ func (c *c06) vector(ws []uint64, rng *rand.Rand, kind string) {
 	}
 }
 
+// large checks one committee of more than 64 members (subsets as index lists, not 64-bit masks): thresholds, sampled
+// subsets and id multisets that repeat members at any position, each verdict and weight against the reference.
+func (c *c06) large(ws []uint64, rng *rand.Rand) {
+	n := len(ws)
+	W := new(big.Int)
+	for _, w := range ws {
+		W.Add(W, new(big.Int).SetUint64(w))
+	}
+	if W.BitLen() > 64 || W.Sign() == 0 {
+		return
+	}
+	c.vectors++
+	idFamily = c.vectors
+	F := new(big.Int).Div(new(big.Int).Sub(W, big.NewInt(1)), big.NewInt(3))
+	Q := new(big.Int).Sub(W, F)
+	cm := members(ws)
+	mw := quorum.GetWeights(cm)
+	c.evals += 2
+	if new(big.Int).SetUint64(uint64(quorum.CalcByzMaxWeight(mw))).Cmp(F) != 0 || new(big.Int).SetUint64(uint64(quorum.CalcQuorumWeight(mw))).Cmp(Q) != 0 {
+		c.bad("thresholds-wrong-for-a-large-committee", "n=%d W=%s: CalcByzMaxWeight=%d CalcQuorumWeight=%d, reference f=%s Q=%s", n, W, quorum.CalcByzMaxWeight(mw), quorum.CalcQuorumWeight(mw), F, Q)
+	}
+	for k := 0; k < 60; k++ {
+		// a subset by density, then noise: repeats of members (biased to the high positions), strangers
+		in := make([]bool, n)
+		dens := rng.Intn(101)
+		var list []primitives.MemberId
+		for i := 0; i < n; i++ {
+			if rng.Intn(100) < dens {
+				in[i] = true
+				list = append(list, cm[i].Id)
+			}
+		}
+		switch k % 4 {
+		case 1: // one member named many times
+			i := rng.Intn(n)
+			if rng.Intn(2) == 0 {
+				i = n - 1 - rng.Intn(n-64)
+			}
+			list = nil
+			for x := range in {
+				in[x] = false
+			}
+			in[i] = true
+			for r := 0; r < 1+rng.Intn(3*n); r++ {
+				list = append(list, cm[i].Id)
+			}
+		case 2: // repeats of members already in the subset
+			for r := rng.Intn(2 * n); r > 0 && len(list) > 0; r-- {
+				list = append(list, list[rng.Intn(len(list))])
+			}
+		case 3: // strangers
+			for r := rng.Intn(n); r > 0; r-- {
+				list = append(list, memberId(n+rng.Intn(50)))
+			}
+		}
+		rng.Shuffle(len(list), func(a, b int) { list[a], list[b] = list[b], list[a] })
+		ref := new(big.Int)
+		for i := 0; i < n; i++ {
+			if in[i] {
+				ref.Add(ref, new(big.Int).SetUint64(ws[i]))
+			}
+		}
+		q, w, _ := quorum.IsQuorum(list, cm)
+		h, w2, _ := quorum.HasHonest(list, cm)
+		c.evals += 2
+		if new(big.Int).SetUint64(uint64(w)).Cmp(ref) != 0 || w != w2 || q != (ref.Cmp(Q) >= 0) || h != (ref.Cmp(F) > 0) {
+			c.bad("duplicates-or-strangers-change-the-verdict", "committee of %d members, W=%s f=%s Q=%s: an id list of %d entries naming %d distinct members -> (quorum=%v honest=%v weight=%d/%d), reference weight %s", n, W, F, Q, len(list), countTrue(in), q, h, w, w2, ref)
+		}
+	}
+	key := fmt.Sprintf("large|%d|%s", n, W.String())
+	c.distinct[key] = true
+}
+
+func countTrue(b []bool) int {
+	n := 0
+	for _, x := range b {
+		if x {
+			n++
+		}
+	}
+	return n
+}
+
 // CheckC06 decides the quorum arithmetic property.
 func CheckC06(run *harness.Run) int {
 	c := &c06{distinct: map[string]bool{}, byRule: map[string]int{}}
@@ -312,10 +395,26 @@ func CheckC06(run *harness.Run) int {
 		}
 		c.vector(splitTotal(T, n, rng, k%3), rng, "random-total")
 	}
+	// committees of more than 64 members
+	for k := 0; k < run.Pick(120, 3000); k++ {
+		n := 65 + rng.Intn(140)
+		ws := make([]uint64, n)
+		for i := range ws {
+			switch k % 3 {
+			case 0:
+				ws[i] = 1
+			case 1:
+				ws[i] = uint64(1 + rng.Intn(5))
+			default:
+				ws[i] = uint64(rng.Intn(1 << 20))
+			}
+		}
+		c.large(ws, rng)
+	}
 	cov := map[string]interface{}{
 		"evaluations":         c.evals,
 		"distinct_nontrivial": len(c.distinct),
-		"rule":                "weight vectors: every vector of n=4..5 members with weights 1.." + fmt.Sprint(maxW) + " (exhaustive), vectors with zero-weight members, totals around 2^24, 2^31, 2^32, 2^40, 2^53-4..2^53+8, 2^54, 2^55, 2^60, 2^62, 2^63+-4, 2^64-9..2^64-1 split over 4..12 members (even / one heavy / skewed), random totals of 3..64 bits; per vector every subset (n<=10) or 300 sampled subsets, all quorum pairs (<=4000), id lists with duplicates/strangers/empty ids. distinct = distinct (family, n, total); all are non-trivial (each exercises thresholds and subset verdicts)",
+		"rule":                "committees of 65..204 members (equal / small / random weights; subsets by density, one member named many times, repeats, strangers); weight vectors: every vector of n=4..5 members with weights 1.." + fmt.Sprint(maxW) + " (exhaustive), vectors with zero-weight members, totals around 2^24, 2^31, 2^32, 2^40, 2^53-4..2^53+8, 2^54, 2^55, 2^60, 2^62, 2^63+-4, 2^64-9..2^64-1 split over 4..12 members (even / one heavy / skewed), random totals of 3..64 bits; per vector every subset (n<=10) or 300 sampled subsets, all quorum pairs (<=4000), id lists with duplicates/strangers/empty ids. distinct = distinct (family, n, total); all are non-trivial (each exercises thresholds and subset verdicts)",
 		"samples":             c.samples,
 		"weight_vectors":      c.vectors,
 		"violations_by_rule":  c.byRule,
